@@ -11,7 +11,8 @@ import gen_harness
 import k3
 from vlib import CACHE, DRIVER, ENV, ensure_harness, harness_hash, model_hash, repo_hash
 
-CHAINS = ["", "M", "F", "MF", "X", "O"]
+RCHAINS = ["", "M", "F", "MF", "X", "O"]                       # random stage parameters
+CHAINS = RCHAINS + ["OFM", "FMF", "XF"]                       # grids with fixed stage parameters
 
 
 def gen_cases(tier, seed):
@@ -19,7 +20,7 @@ def gen_cases(tier, seed):
     n = 120 if tier == "quick" else 1200
     cases = []
     for cid in range(n):
-        chain = r.choice(CHAINS)
+        chain = r.choice(RCHAINS)
         m = r.choice([0, 1, 3, 17, 64, 200, 1000])
         stages = []
         fk, fr = None, None          # the chain keeps values v with v = fr (mod fk)
@@ -63,6 +64,16 @@ def gen_cases(tier, seed):
                 ops = ["N:1", "%s:%d" % cs] + stages + ["%s:%d" % cs, "N:1"]
                 cases.append({"id": cid, "chain": chain, "ops": ops, "term": term, "nt": 1, "cs": cs, "m": m, "src": "endless", "big": 0})
                 cid += 1
+    # the same chains in parallel on the endless source
+    for chain in CHAINS:
+        for (nt, cs) in [(4, ("C", 1)), (3, ("C", 4)), (0, ("Cm", 2))]:
+            m = [3, 40, 200][cid % 3]
+            stages = [{"M": "M:1:0", "F": "Fa", "X": "X:2:100000", "O": "O:2:0:1:0"}[s_] for s_ in chain]
+            target = m + 6 + ((m + 6) % 2 if "O" in chain else 0)
+            term = "%s:F:120000:%d" % (["find", "any"][cid % 2], target)
+            ops = ["N:%d" % nt, "%s:%d" % cs] + stages + ["%s:%d" % cs, "N:%d" % nt]
+            cases.append({"id": cid, "chain": chain, "ops": ops, "term": term, "nt": nt, "cs": cs, "m": m, "src": "endless", "big": 0})
+            cid += 1
     # very long sources of known length: the work after the match must not depend on what remains
     for chain in CHAINS:
         for big in ([1 << 20, 1 << 24] if tier == "quick" else [1 << 20, 1 << 22, 1 << 24, 1 << 26]):
